@@ -82,6 +82,9 @@ func canonJSON(v any) string {
 // Project maps a Go value of a generated type to its abstract form.
 func Project(v reflect.Value) AVal {
 	t := v.Type()
+	if t != tTime && t.Kind() == reflect.Struct && t.ConvertibleTo(tTime) {
+		return Project(v.Convert(tTime)) // a named type whose underlying type is time.Time
+	}
 	if t == tTime {
 		tm := v.Interface().(time.Time)
 		return AVal{T: "leaf", S: fmt.Sprintf("t:%d.%09d", tm.Unix(), tm.Nanosecond())}
@@ -181,6 +184,14 @@ func ProjectParams(v reflect.Value, readBody bool) AVal {
 // Build sets v (addressable) from the abstract value.
 func Build(v reflect.Value, a AVal) error {
 	t := v.Type()
+	if t != tTime && t.Kind() == reflect.Struct && t.ConvertibleTo(tTime) {
+		tv := reflect.New(tTime).Elem()
+		if err := Build(tv, a); err != nil {
+			return err
+		}
+		v.Set(tv.Convert(t))
+		return nil
+	}
 	if t == tTime {
 		var sec, nsec int64
 		if _, err := fmt.Sscanf(strings.TrimPrefix(a.S, "t:"), "%d.%d", &sec, &nsec); err != nil {
@@ -338,6 +349,10 @@ func trickyTime(r *rand.Rand) time.Time {
 // explicit Fill instead.
 func RandomFill(v reflect.Value, r *rand.Rand, depth int) {
 	t := v.Type()
+	if t != tTime && t.Kind() == reflect.Struct && t.ConvertibleTo(tTime) {
+		v.Set(reflect.ValueOf(trickyTime(r)).Convert(t))
+		return
+	}
 	if t == tTime {
 		v.Set(reflect.ValueOf(trickyTime(r)))
 		return
